@@ -38,6 +38,9 @@ THEOREMS = [
     "SqlglotModel.Properties.C10.cte_sibling_independence",
     "SqlglotModel.Properties.C10.generated_cte_scoping_ok",
     "SqlglotModel.Properties.C10.cte_shared_dict_leak_witness",
+    "SqlglotModel.Properties.C10.join_context_within_prefix",
+    "SqlglotModel.Properties.C10.generated_join_context_ok",
+    "SqlglotModel.Properties.C10.join_context_cached_order_witness",
     "SqlglotModel.Properties.C10.qualify_complete",
     "SqlglotModel.Properties.C10.qualify_complete_all",
     "SqlglotModel.Properties.C10.star_expansion_schema_order",
@@ -197,6 +200,29 @@ def default_qualifier_tag_first(chk: Check) -> bool:
     return all(verdicts)
 
 
+def join_context_definition_order(chk: Check) -> bool:
+    """ast of Resolver._get_available_source_columns: which mapping / ordering the available sources are taken from"""
+    src = open(os.path.join(REPO, "sqlglot", "optimizer", "resolver.py"), encoding="utf-8").read()
+    tree = ast.parse(src)
+    verdict = None
+    for cls in [n for n in tree.body if isinstance(n, ast.ClassDef) and n.name == "Resolver"]:
+        for fn in [n for n in cls.body if isinstance(n, ast.FunctionDef) and n.name == "_get_available_source_columns"]:
+            text = ast.unparse(fn)
+            uses_from = any(isinstance(n, ast.Subscript) and isinstance(n.slice, ast.Constant) and n.slice.value == "from_" for n in ast.walk(fn))
+            slices_joins = any(isinstance(n, ast.Subscript) and isinstance(n.slice, ast.Slice) and isinstance(n.value, ast.Subscript)
+                               and isinstance(n.value.slice, ast.Constant) and n.value.slice.value == "joins" for n in ast.walk(fn))
+            uses_cached = any(isinstance(n, ast.Attribute) and n.attr in ("_get_all_source_columns", "selected_sources", "_source_columns")
+                              for n in ast.walk(fn))
+            if uses_from and slices_joins and not uses_cached:
+                verdict = True
+            elif uses_cached:
+                verdict = False
+    if verdict is None:
+        chk.broken.append({"kind": "translator", "what": "structure changed: Resolver._get_available_source_columns not recognised"})
+        return False
+    return verdict
+
+
 def cte_scoping_sites(chk: Check):
     """ast of sqlglot/optimizer/scope.py: (Scope.branch passes a freshly built dict as cte_sources, _traverse_ctes updates in place)"""
     src = open(os.path.join(REPO, "sqlglot", "optimizer", "scope.py"), encoding="utf-8").read()
@@ -284,6 +310,11 @@ def translate(chk: Check) -> str:
     L.append(f"def branchCopiesCteSources : Bool := {lean_bool(copies)}")
     L.append("/-- scope.py: does _traverse_ctes add a scope's own WITH definitions to its mapping in place (.update)? -/")
     L.append(f"def traverseCtesUpdatesInPlace : Bool := {lean_bool(in_place)}")
+    jc = join_context_definition_order(chk)
+    chk.cov["join_context_definition_order"] = jc
+    L.append("/-- resolver.py: does _get_available_source_columns collect the FROM source and the joins up to the current one")
+    L.append("    by name, in FROM/JOIN definition order (rather than slicing the cached all-sources mapping)? -/")
+    L.append(f"def joinContextDefinitionOrder : Bool := {lean_bool(jc)}")
     L.append("end SqlglotModel.Generated.C10")
     return "\n".join(L) + "\n"
 
@@ -709,7 +740,9 @@ class Gen:
                 elif self.model and jr < 0.5 and srcs[-1][1] and any(cs for _, cs in srcs[:-1]):
                     self.features.add("join-on-qualified")
                     la, lcs = rng.choice([(a, cs) for a, cs in srcs[:-1] if cs])
-                    from_sql.append(f" JOIN {s} ON {self.ref(la, 0.03)}.{self.ref(rng.choice(lcs), 0.03)} = "
+                    lc = rng.choice(lcs)
+                    lhs = self.ref(lc, 0.03) if rng.random() < 0.35 else f"{self.ref(la, 0.03)}.{self.ref(lc, 0.03)}"
+                    from_sql.append(f" JOIN {s} ON {lhs} = "
                                     f"{self.ref(srcs[-1][0], 0.03)}.{self.ref(rng.choice(srcs[-1][1]), 0.03)}")
                 elif not self.model and jr < 0.3 and common:
                     self.features.add("using")
@@ -1033,6 +1066,12 @@ def oracle(sql, nested_schema, dialect):
                                 kind = "column-names-sibling-source-of-derived-table"
                                 break
                         x = enclosing_select(x)
+                    if kind == "column-source-not-visible":
+                        cte_anc = sel.find_ancestor(exp.CTE)
+                        owner = cte_anc.find_ancestor(exp.Select) if cte_anc is not None else None
+                        if owner is not None and enclosing_select(owner) is not None:
+                            # a CTE defined inside a subquery: its unknown qualifiers are presumed correlated and never checked
+                            kind = "unknown-qualifier-in-cte-of-subquery"
                     return (kind, f"column {c.sql(dialect=dialect)} names {tname!r}, visible sources {sorted(vis)} in {s1!r}")
             else:
                 if clause == "order" and c.name in outs:
@@ -1089,6 +1128,10 @@ def oracle(sql, nested_schema, dialect):
                     if not isinstance(body, exp.Select):
                         known = False
                         src_cols.append((it.alias_or_name, None))
+                    elif any(isinstance(p, exp.Star) or (isinstance(p, exp.Column) and isinstance(p.this, exp.Star))
+                             for p in body.expressions):
+                        known = False
+                        src_cols.append((it.alias_or_name, None))
                     else:
                         src_cols.append((it.alias_or_name, [p.alias_or_name for p in body.expressions]))
                 else:
@@ -1097,13 +1140,30 @@ def oracle(sql, nested_schema, dialect):
                     if not cols:
                         known = False
             elif isinstance(it, exp.Subquery) and isinstance(it.this, exp.Select):
-                src_cols.append((it.alias_or_name, [p.alias_or_name for p in it.this.expressions]))
+                if any(isinstance(p, exp.Star) or (isinstance(p, exp.Column) and isinstance(p.this, exp.Star))
+                       for p in it.this.expressions):
+                    # the derived table itself kept a star: its output columns are not known
+                    known = False
+                    src_cols.append((it.alias_or_name, None))
+                else:
+                    src_cols.append((it.alias_or_name, [p.alias_or_name for p in it.this.expressions]))
             else:
                 known = False
                 src_cols.append((it.alias_or_name, None))
         dup = any(cols is not None and len(cols) != len(set(cols)) for _, cols in src_cols)
         has_using = any(j.args.get("using") or j.method == "NATURAL" for j in (s0.args.get("joins") or []))
         if star_left:
+            par0 = s0.parent
+            had_collist = isinstance(par0, (exp.Subquery, exp.CTE)) and par0.args.get("alias") is not None \
+                and bool(par0.args["alias"].args.get("columns"))
+            if had_collist:
+                par1 = s1n.parent
+                kept = isinstance(par1, (exp.Subquery, exp.CTE)) and par1.args.get("alias") is not None \
+                    and bool(par1.args["alias"].args.get("columns"))
+                if not kept:
+                    return ("column-list-alias-dropped-with-unexpanded-star",
+                            f"the alias column list {[c.name for c in par0.args['alias'].columns]} of a derived table / CTE "
+                            f"whose star could not be expanded was removed without renaming anything: {s1!r}")
             everything_excluded = False
             if known and len(s0.expressions) == 1 and isinstance(s0.expressions[0], exp.Star):
                 exc0 = {d.normalize_identifier((x.this if isinstance(x, exp.Column) else x).copy()).name
@@ -1117,6 +1177,29 @@ def oracle(sql, nested_schema, dialect):
             if known and not dup and not any(cols is not None and "*" in cols for _, cols in src_cols):
                 return ("star-not-expanded", f"a star survives in {s1!r}")
             continue
+        # JOIN … ON: a name that qualify itself bound must denote the FROM source or a join at or before this one
+        joins1 = s1n.args.get("joins") or []
+        joins0 = s0.args.get("joins") or []
+        if len(joins1) == len(joins0) == len(src_cols) - 1:
+            names_in_order = [a for a, _ in src_cols]
+            for ji, (j0_, j1_) in enumerate(zip(joins0, joins1)):
+                on0, on1 = j0_.args.get("on"), j1_.args.get("on")
+                if on0 is None or on1 is None:
+                    continue
+                c0 = [c for c in on0.find_all(exp.Column) if c.find_ancestor(exp.Select) is s0]
+                c1 = [c for c in on1.find_all(exp.Column) if c.find_ancestor(exp.Select) is s1n]
+                if len(c0) != len(c1):
+                    continue
+                for a0, a1 in zip(c0, c1):
+                    if a0.table or not a1.table or a1.table not in names_in_order:
+                        continue
+                    pos = names_in_order.index(a1.table)
+                    if pos > ji + 1:
+                        cand = [a for a, cols in src_cols[: ji + 2] if cols and a1.name in cols]
+                        kind = "on-column-bound-to-later-join-despite-visible-candidate" if cand else "on-column-bound-to-later-join"
+                        return (kind, f"the bare name {a0.sql(dialect=dialect)} in the ON condition of join #{ji + 1} was bound to "
+                                      f"{a1.table!r}, which is joined later (available there: {names_in_order[: ji + 2]}"
+                                      + (f"; {cand} expose(s) {a1.name!r}" if cand else "") + f") in {s1!r}")
         if known and has_using and not dup:
             joins0 = s0.args.get("joins") or []
             simple = (len(s0.expressions) == 1 and isinstance(s0.expressions[0], exp.Star)
@@ -1460,7 +1543,11 @@ def correspond_queries(chk: Check):
             break
         dialect = rng.choice(dialects)
         rr = rng.random()
-        if rr < 0.1:
+        if rr > 0.9:
+            # bare ON names resolved through the join context, sources of every kind in every order
+            sql, schema = gen_join_context_case(rng, dialect)
+            feats = ["join-context-template"]
+        elif rr < 0.1:
             # nested WITH shadowing an outer CTE / a schema table, siblings before and after
             sql, schema = gen_cte_shadow_case(rng, dialect)
             feats = ["cte-shadow-template"]
@@ -1682,6 +1769,63 @@ def gen_join_star_case(rng, dialect):
     else:
         projs = [aliases[n] + ".*" for n in rng.sample(names, rng.randint(1, len(names)))]
     return "SELECT " + ", ".join(projs) + " FROM " + "".join(parts), schema
+
+
+def gen_join_context_case(rng, dialect):
+    """multi-join FROM lists mixing derived tables / plain tables / CTE references in every order; one ON condition uses a
+    bare name that is ambiguous over the whole scope but owned by exactly one source among those joined so far"""
+    g = Gen(rng, dialect, False)
+    with_c = {"z": ["c", "e"], "w": ["c", "f"], "v": ["g", "c"]}
+    without_c = {"x": ["a", "k"], "y": ["d", "h"], "u": ["m", "b"]}
+    schema = {g.isql(t, False): {g.isql(c, False): "INT" for c in cs} for t, cs in {**with_c, **without_c}.items()}
+    n = rng.choice([3, 3, 4, 4, 5])
+    j = rng.randint(0, n - 3)                       # the join whose ON holds the bare name; it brings in source j + 1
+    p = rng.randint(0, j + 1)                       # the source (available there) that owns `c`
+    later = rng.randint(j + 2, n - 1)               # another owner of `c`, joined later
+    extra_later = [i for i in range(j + 2, n) if i != later and rng.random() < 0.2]
+    holders = {p, later, *extra_later}
+    kinds = [rng.choice(["table", "derived", "derived", "cte"]) for _ in range(n)]
+    if "derived" not in kinds:
+        kinds[rng.randrange(n)] = "derived"
+    if "table" not in kinds:
+        kinds[rng.choice([i for i in range(n) if kinds[i] != "derived"] or [0])] = "table"
+    pool_c, pool_n = list(with_c), list(without_c)
+    rng.shuffle(pool_c)
+    rng.shuffle(pool_n)
+    ctes, srcs = [], []                             # srcs: (sql text, alias, columns)
+    for i in range(n):
+        has_c = i in holders
+        if kinds[i] == "table" and (pool_c if has_c else pool_n):
+            t = (pool_c if has_c else pool_n).pop()
+            al = rng.choice([None, "s%d" % i])
+            srcs.append((t + (f" AS {al}" if al else ""), al or t, list((with_c if has_c else without_c)[t])))
+        else:
+            bt = rng.choice(list(without_c))
+            cols = ["c", "r%d" % i] if has_c else ["n%d" % i, "r%d" % i]
+            body = f"SELECT {without_c[bt][0]} AS {cols[0]}, {without_c[bt][1]} AS {cols[1]} FROM {bt}"
+            if kinds[i] == "cte":
+                ctes.append(f"c{i} AS ({body})")
+                al = rng.choice([None, "s%d" % i])
+                srcs.append((f"c{i}" + (f" AS {al}" if al else ""), al or f"c{i}", cols))
+            else:
+                srcs.append((f"({body}) AS q{i}", f"q{i}", cols))
+    parts = [srcs[0][0]]
+    for i in range(1, n):
+        text, al, cols = srcs[i]
+        own = [c for c in cols if c != "c"][0]
+        if i == j + 1:
+            side = rng.random() < 0.5
+            cond = f"{al}.{own} = c" if side else f"c = {al}.{own}"
+            parts.append(f" {rng.choice(['', 'LEFT ', 'INNER '])}JOIN {text} ON {cond}")
+        elif rng.random() < 0.6:
+            pa, pcols = srcs[rng.randrange(i)][1:]
+            pown = [c for c in pcols if c != "c"][0]
+            parts.append(f" JOIN {text} ON {pa}.{pown} = {al}.{own}")
+        else:
+            parts.append(f" CROSS JOIN {text}")
+    proj = rng.choice(["*", f"{srcs[p][1]}.c", "1 AS one"])
+    sql = ("WITH " + ", ".join(ctes) + " " if ctes else "") + f"SELECT {proj} FROM " + "".join(parts)
+    return sql, schema
 
 
 def gen_cte_shadow_case(rng, dialect):
@@ -2079,6 +2223,11 @@ def search(chk: Check, hints, budget_s):
             chk.count("search:join-star-template")
             consider(chk, sql3, schema3, d3, stats)
         if rng.random() < 0.2:
+            d5 = rng.choice(all_d)
+            sql5, schema5 = gen_join_context_case(rng, d5)
+            chk.count("search:join-context-template")
+            consider(chk, sql5, schema5, d5, stats)
+        if rng.random() < 0.2:
             d4 = rng.choice(all_d)
             sql4, schema4 = gen_cte_shadow_case(rng, d4)
             chk.count("search:cte-shadow-template")
@@ -2182,5 +2331,18 @@ def replay(path: str) -> int:
         print("replay:", "VIOLATES: " + res[0] + ": " + res[1] if res else "holds")
         return 1 if res else 0
     res = oracle(r["sql"], r["schema"], r["dialect"])
+    if res:
+        # a replay that now only shows a recorded known finding is reported as such (the finding it was written for is gone)
+        import re as _re
+        from vf.core import _load_known
+
+        key = res[0] + "|" + skeleton(r["sql"], r["dialect"])
+        for k in _load_known():
+            m = k.get("match", {})
+            if k.get("property") == "C10" and k.get("kind") == "known" and (
+                    m.get("key") == key or ("key_regex" in m and _re.fullmatch(m["key_regex"], key, _re.S))):
+                if all({"kind": res[0], "dialect": r["dialect"] or ""}.get(ck) == cv for ck, cv in m.get("context", {}).items()):
+                    print(f"replay: holds (only the recorded known finding {k['id']} shows: {res[0]})")
+                    return 0
     print("replay:", "VIOLATES: " + res[0] + ": " + res[1] if res else "holds")
     return 1 if res else 0
